@@ -41,7 +41,7 @@ P = {
             "Partial: halting on invalid token lists; the exact error span (Token::start/content_len vs source) is compared with an Earley oracle's least dead prefix and the token texts.",
             "§0, §7 C09", "translator + kernel evaluation of the validator + Earley oracle"),
     "C10": ("proof", "Theorems, for every AST: validate_ast = Ok ⇔ WellFormed (Spec/WellFormed.lean: exactly one start naming a defined nonterminal, exactly one terminal enum, every reference defined in its own namespace, pairwise distinct top-level names, per-enum distinct variant names and symbol sequences, capitalisation) — C10_ok_sound, C10_ok_iff_wellFormed; validate_ast = Err e ⇒ Truthful e (variant, name or sequence and both byte positions describe a violation present at those positions, with any combination of simultaneous violations) — C10_err_truthful; Truthful e ⇒ ¬WellFormed (the two specifications agree); no panicking path. "
-            "Tie to the code: the model's answer is compared with the implementation's on files with 0–3 injected violations of 23 kinds (incl. cross-namespace names), and Truthful/WellFormed are also evaluated by an independent Python oracle on the implementation's answers.",
+            "Tie to the code: the model's answer is compared with the implementation's on files with 0–3 injected violations of 28 kinds (incl. cross-namespace names), and Truthful/WellFormed are also evaluated by an independent Python oracle on the implementation's answers.",
             "§7 C10", "Ok⇔WellFormed + Err⇒Truthful theorems; model=impl on injected violations"),
     "C11": ("proof", "Theorem (every grammar, every automaton): a conflict report names a state of the automaton, two items of that state, and they demand different parser actions on the same lookahead column (C11_payload). "
             "Partial: 'attached automaton = LALR(1) automaton' (§6.3) and 'attached file = validated input' are checked on every conflicting grammar of the run against the oracle and the model.",
